@@ -165,7 +165,7 @@ class RaceControl:
 
 def run_race(schedule, hosts, cores, behaviour, chooser, offsets=None, on_error="continue", horizon=600.0, cfg_extra=None,
              faults=None, test_mode=False, on_sim=None, shutdown_after=True, store=False, max_steps=20000, track_plugin_hook=None,
-             rc_factory=None, schedule_track=None):
+             rc_factory=None, schedule_track=None, linger=0.0):
     """runs one race under the given chooser.  Returns Race(status, rc, log, sim, ...)"""
     s = setup()
     driver = s["driver"]
@@ -203,9 +203,16 @@ def run_race(schedule, hosts, cores, behaviour, chooser, offsets=None, on_error=
                 on_sim(sim, rc)
             rc.start()
 
+            ended = [None]
+
             def until(sim_):
                 pump()
-                return rc.phase in ("complete", "failed", "cancelled")
+                if rc.phase in ("complete", "failed", "cancelled"):
+                    if ended[0] is None:
+                        ended[0] = CLOCK.now
+                    # race control may take a while until it tears the actor system down (linger): the actors keep running meanwhile
+                    return linger <= 0 or rc.phase == "complete" or getattr(rc, "exit_sent", False) or CLOCK.now >= ended[0] + linger
+                return False
 
             r.status = sim.run(until=until)
             pump()
